@@ -136,10 +136,14 @@ func c19Load() (conf *Config, err error, p *c19Panic) {
 	return
 }
 
-// c19Violation is what a run reports: key "" = none; key "harness" = harness problem.
+// c19Result collects the classes of one run. Violations are handed to report, which does not return
+// for a violation that is not a listed known finding (the test fails there); when it returns, the
+// finding is known and the run carries on behind it where that is meaningful. harness != "" is a
+// harness problem (never a violation).
 type c19Result struct {
-	key, msg string
-	classes  map[string]bool
+	classes map[string]bool
+	report  func(key, msg string)
+	harness string
 }
 
 func (r *c19Result) class(c string) { r.classes[c] = true }
@@ -378,9 +382,9 @@ func (st *c19Station) shutdown() string {
 	return ""
 }
 
-// c19Housekeeping runs every stats module the way Stats.PrintStats does, module by module so that a
+// housekeeping runs every stats module the way Stats.PrintStats does, module by module so that a
 // panic is attributed, then the real Stats printer over the modules that survived.
-func (st *c19Station) housekeeping(stage string) (string, string) {
+func (st *c19Station) housekeeping(stage string, report func(key, msg string)) {
 	type mod struct {
 		name string
 		m    stats
@@ -394,17 +398,19 @@ func (st *c19Station) housekeeping(stage string) (string, string) {
 	for _, m := range mods {
 		m := m
 		if p := c19Recover(func() { m.m.PrintAndReset(st.stLogger) }); p != nil {
-			return "panic:" + m.name, fmt.Sprintf("%s: PrintAndReset of the %s module panicked: %s [%s]", stage, strings.TrimSuffix(m.name, "-printstats"), p.Val, c19ShortStack(p))
+			report("panic:"+m.name, fmt.Sprintf("%s: PrintAndReset of the %s module panicked: %s [%s]", stage, strings.TrimSuffix(m.name, "-printstats"), p.Val, c19ShortStack(p)))
+			continue
 		}
 		s.AddStatsModule(m.m, false)
-	}
-	if p := c19Recover(func() { st.realLive.PrintStats(st.stLogger) }); p != nil {
-		return "panic:liveness-printstats", fmt.Sprintf("%s: PrintStats of the liveness module panicked: %s [%s]", stage, p.Val, c19ShortStack(p))
+		if m.name == "liveness-printstats" {
+			if p := c19Recover(func() { st.realLive.PrintStats(st.stLogger) }); p != nil {
+				report("panic:liveness-printstats", fmt.Sprintf("%s: PrintStats of the liveness module panicked: %s [%s]", stage, p.Val, c19ShortStack(p)))
+			}
+		}
 	}
 	if p := c19Recover(func() { s.PrintStats(false); s.PrintStats(true); s.ResetAll() }); p != nil {
-		return "panic:stats-print", fmt.Sprintf("%s: Stats.PrintStats panicked: %s [%s]", stage, p.Val, c19ShortStack(p))
+		report("panic:stats-print", fmt.Sprintf("%s: Stats.PrintStats panicked: %s [%s]", stage, p.Val, c19ShortStack(p)))
 	}
-	return "", ""
 }
 
 var c19TT = []pb.TransportType{pb.TransportType_Min, pb.TransportType_Prefix, pb.TransportType_Obfs4}
@@ -470,18 +476,17 @@ func c19LiveClass(conf *RegConfig) string {
 }
 
 // c19RunConfig evaluates one configuration case.
-func c19RunConfig(x *c19Ctx, c c19ConfigCase) (res c19Result) {
-	res.classes = map[string]bool{}
+func c19RunConfig(x *c19Ctx, c c19ConfigCase, res *c19Result) {
 	conf := c.Conf
 	text, err := conf.Render()
 	if err != nil {
-		res.key, res.msg = "harness", err.Error()
+		res.harness = err.Error()
 		return
 	}
 	if conf.Verbatim {
 		sc, err := c19FromTOML(text)
 		if err != nil {
-			res.key, res.msg = "harness", "shipped file does not decode: "+err.Error()
+			res.harness = "shipped file does not decode: " + err.Error()
 			return
 		}
 		sc.Verbatim = true
@@ -489,18 +494,17 @@ func c19RunConfig(x *c19Ctx, c c19ConfigCase) (res c19Result) {
 		res.class("shipped-file")
 	}
 	if err := os.WriteFile(x.confPath, []byte(text), 0o644); err != nil {
-		res.key, res.msg = "harness", err.Error()
+		res.harness = err.Error()
 		return
 	}
 	if err := os.WriteFile(x.subnetPath, []byte(vDefaultSubnets), 0o644); err != nil {
-		res.key, res.msg = "harness", err.Error()
+		res.harness = err.Error()
 		return
 	}
 	parsed, perr, pp := c19Load()
 	if pp != nil {
 		res.class("parseconfig-panicked")
-		res.key = "panic:parseconfig:" + c19PanicCause(pp)
-		res.msg = fmt.Sprintf("ParseConfig panicked instead of returning an error: %s [%s]", pp.Val, c19ShortStack(pp))
+		res.report("panic:parseconfig:"+c19PanicCause(pp), fmt.Sprintf("ParseConfig panicked instead of returning an error: %s [%s]", pp.Val, c19ShortStack(pp)))
 		return
 	}
 	if perr != nil {
@@ -509,7 +513,7 @@ func c19RunConfig(x *c19Ctx, c c19ConfigCase) (res c19Result) {
 	}
 	if conf.tomlMalformed() {
 		res.class("accepted-although-toml-malformed")
-		res.key, res.msg = "malformed-accepted", "ParseConfig accepted a file that is not valid TOML for the configuration's types"
+		res.report("malformed-accepted", "ParseConfig accepted a file that is not valid TOML for the configuration's types")
 		return
 	}
 	res.class("accepted-by-parseconfig")
@@ -518,14 +522,17 @@ func c19RunConfig(x *c19Ctx, c c19ConfigCase) (res c19Result) {
 		return
 	}
 	// (2) every list entry is in force
-	if k, m := c19Enforced(x, conf, parsed.RegConfig, &res); k != "" {
-		res.key, res.msg = k, m
-		return
+	if k, m := c19Enforced(x, conf, parsed.RegConfig, res); k != "" {
+		res.report(k, m)
 	}
 	// (1) housekeeping never panics once the station is up
 	st, rejected, key, msg := c19BringUp(x, parsed, true)
+	if key == "harness" {
+		res.harness = msg
+		return
+	}
 	if key != "" {
-		res.key, res.msg = key, msg
+		res.report(key, msg)
 		return
 	}
 	if rejected != "" {
@@ -536,8 +543,8 @@ func c19RunConfig(x *c19Ctx, c c19ConfigCase) (res c19Result) {
 		return
 	}
 	defer func() {
-		if m := st.shutdown(); m != "" && res.key == "" {
-			res.key, res.msg = "harness", m
+		if m := st.shutdown(); m != "" && res.harness == "" {
+			res.harness = m
 		}
 	}()
 	res.class("accepted")
@@ -551,25 +558,15 @@ func c19RunConfig(x *c19Ctx, c c19ConfigCase) (res c19Result) {
 	} else {
 		res.class("ingest-buffer:positive-capacity")
 	}
-	if k, m := st.housekeeping("fresh station"); k != "" {
-		res.key, res.msg = k, m
-		return
-	}
-	st.ingest(c.Regs, &res)
-	if k, m := st.housekeeping("after ingest"); k != "" {
-		res.key, res.msg = k, m
-		return
-	}
+	st.housekeeping("fresh station", res.report)
+	st.ingest(c.Regs, res)
+	st.housekeeping("after ingest", res.report)
 	for _, d := range []time.Duration{11 * time.Minute, 7 * time.Hour} {
 		st.age(d)
 		if p := c19Recover(func() { st.rm.RemoveOldRegistrations() }); p != nil {
-			res.key, res.msg = "panic:remove-old", fmt.Sprintf("RemoveOldRegistrations panicked: %s [%s]", p.Val, c19ShortStack(p))
-			return
+			res.report("panic:remove-old", fmt.Sprintf("RemoveOldRegistrations panicked: %s [%s]", p.Val, c19ShortStack(p)))
 		}
-		if k, m := st.housekeeping("after expiry sweep"); k != "" {
-			res.key, res.msg = k, m
-			return
-		}
+		st.housekeeping("after expiry sweep", res.report)
 	}
 	if st.rm.registeredDecoys.TotalRegistrations() != 0 {
 		res.class("sweep-left-registrations") // C08 territory, not judged here
@@ -577,51 +574,59 @@ func c19RunConfig(x *c19Ctx, c c19ConfigCase) (res c19Result) {
 	// SIGHUP with the same file: ParseConfig; on success OnReload
 	again, aerr, ap := c19Load()
 	if ap != nil || aerr != nil {
-		res.key, res.msg = "reload:same-file-not-accepted", fmt.Sprintf("the file accepted at start-up is not accepted on reload: err=%v panic=%v", aerr, ap)
+		res.report("reload:same-file-not-accepted", fmt.Sprintf("the file accepted at start-up is not accepted on reload: err=%v panic=%v", aerr, ap))
 		return
 	}
 	if p := c19Recover(func() { st.rm.OnReload(again.RegConfig) }); p != nil {
-		res.key, res.msg = "panic:onreload", fmt.Sprintf("OnReload panicked: %s [%s]", p.Val, c19ShortStack(p))
+		res.report("panic:onreload", fmt.Sprintf("OnReload panicked: %s [%s]", p.Val, c19ShortStack(p)))
 		return
 	}
-	if k, m := c19Enforced(x, conf, st.rm.RegConfig, &res); k != "" {
-		res.key, res.msg = k, "after a reload of the same file: "+m
-		return
+	if k, m := c19Enforced(x, conf, st.rm.RegConfig, res); k != "" {
+		res.report(k, "after a reload of the same file: "+m)
 	}
-	if k, m := st.housekeeping("after reload"); k != "" {
-		res.key, res.msg = k, m
-		return
-	}
-	return
+	st.housekeeping("after reload", res.report)
 }
 
 func c19CheckConfig(t vh.Fataler, rec *vh.Rec, x *c19Ctx, c c19ConfigCase) {
-	res := c19RunConfig(x, c)
-	var classes []string
-	for k := range res.classes {
-		if strings.HasPrefix(k, "note:") {
-			rec.Note("%s", strings.TrimPrefix(k, "note:"))
-			continue
+	res := &c19Result{classes: map[string]bool{}}
+	recorded := false
+	record := func() {
+		if recorded {
+			return
 		}
-		classes = append(classes, k)
+		recorded = true
+		var classes []string
+		for k := range res.classes {
+			if strings.HasPrefix(k, "note:") {
+				rec.Note("%s", strings.TrimPrefix(k, "note:"))
+				continue
+			}
+			classes = append(classes, k)
+		}
+		sort.Strings(classes)
+		nontriv := true
+		if c.Conf.Verbatim {
+			nontriv = false
+		} else if text, err := c.Conf.Render(); err == nil && c19SameAsShipped(text, x.shipped) {
+			nontriv = false
+		}
+		rec.Case(nontriv, vh.Digest(c), c, classes...)
 	}
-	sort.Strings(classes)
-	nontriv := true
-	if c.Conf.Verbatim {
-		nontriv = false
-	} else if text, err := c.Conf.Render(); err == nil && c19SameAsShipped(text, x.shipped) {
-		nontriv = false
-	}
-	rec.Case(nontriv, vh.Digest(c), c, classes...)
-	if res.key == "harness" {
-		t.Fatalf("harness problem: %s", res.msg)
-	}
-	if res.key != "" {
+	defer record()
+	res.report = func(key, msg string) {
+		if _, known := vh.IsKnown(rec.Prop, key); !known {
+			record() // the test ends inside rec.Violation
+		}
 		text, _ := c.Conf.Render()
 		if len(text) > 1500 {
 			text = text[:1500] + "..."
 		}
-		rec.Violation(t, res.key, c, "%s\n--- configuration (%s) ---\n%s", res.msg, c.Conf.Note, text)
+		rec.Violation(t, key, c, "%s\n--- configuration (%s) ---\n%s", msg, c.Conf.Note, text)
+	}
+	c19RunConfig(x, c, res)
+	if res.harness != "" {
+		record()
+		t.Fatalf("harness problem: %s", res.harness)
 	}
 }
 
